@@ -13,6 +13,8 @@ CONSTANTS
  DevBackupOverwrite = FALSE
  DevNoBackup = FALSE
  DevSeqOpenEarly = FALSE
+ DevLinkDirect = FALSE
+ DevBackupCount = FALSE
 INVARIANT HistoryClean
 INVARIANT BoundOK
 CHECK_DEADLOCK FALSE
